@@ -257,6 +257,11 @@ def classify(case, hr, dr_read, dr_alt):
                 r = dr_alt.get(flag)
                 if feat in feats and r is not None and r.get("lines") == d1:
                     return sig
+        err = hr.get("readerr", "")
+        if "garbage at the end of file" in err and len(hr.get("RAW", "")) // 2 % (1 << 18) == 0 and hr.get("RAW"):
+            return "C11:raw-length-multiple-of-buffer"
+        if "not found item .lc" in err and "postlink" in case.flags:
+            return "C11:written-after-link-lc-items"
         return "C11:roundtrip"
     return None
 
@@ -333,8 +338,8 @@ def judge(case, hr, drw, drr, dalt):
                         {"first_diff": first_diff(hr["T1"], hr["T2"])}))
         if hr.get("readcb") != "same":
             out.append(("MIR_read_with_func result differs from MIR_read: %s" % hr.get("readcb"), "C11:read-api-differ", {}))
-    # (e) model reader
-    if drr is not None:
+    # (e) model reader (the compression layer is not part of the model)
+    if drr is not None and sig != "C11:raw-length-multiple-of-buffer":
         if "readerr" in hr:
             if "error" not in drr:
                 tie_breaks.append((case, "read", {"impl": hr["readerr"], "model": "accepts"}))
@@ -758,13 +763,52 @@ def history_cases(rng, n):
                 lines += g.gen_module(rng.choice([3, 8]), rng.choice([10, 40]), feats)
             fl = ["merge", "load"] + (["labelbase=%d" % rng.choice([250, 65530])] if rng.chance(1, 3) else [])
             out.append(Case("hist-merge-gen-%d" % i, lines, flags=fl, kind="history"))
-        else:
+        elif i % 8 == 3:
             lines, calls = [], []
             for _ in range(1 + rng.below(3)):
                 l, c = int_module(g, rng, 1 + rng.below(3))
                 lines += l
                 calls += c
             out.append(Case("hist-postlink-%d" % i, lines, flags=["postlink", "exec"], calls=calls, kind="history"))
+        else:
+            # written after link, with float / double / long double / string constants: link-time
+            # simplification turns them into `.lc<N>` data items
+            lines, calls = [], []
+            for _ in range(1 + rng.below(2)):
+                l, c = g.gen_exec_case(1 + rng.below(3), rng.choice([10, 40]))
+                lines += l
+                calls += c
+            l, c = int_module(g, rng, 1)
+            k = next(j for j, ln in enumerate(l) if ln.startswith("insn"))
+            sreg = g.ident(False)          # holds the address of the string: must not reach the result
+            l.insert(k, "local 6 %s" % x(sreg))
+            l.insert(k + 1, "insn %d 2 r:%s s:%s" % (T.code["MOV"], x(sreg), x(b"a string constant\0")))
+            out.append(Case("hist-postlink-fp-%d" % i, lines + l, flags=["postlink", "exec"], calls=calls + c,
+                            kind="history"))
+    return out
+
+
+def buffer_multiple_cases():
+    """modules whose RAW stream length is exactly k * 2^18 (the buffer of mir-reduce.h) and k * 2^18 +- 1:
+    padded with a u8 data item of zeros (one raw byte per element); the length is computed with the model"""
+    if not HAVE_DRV:
+        return []
+    base = 10
+
+    def lines(n):
+        return ["module " + x(b"pad"), "data %s 1 %d %s" % (x(b"z"), n, " ".join(["0"] * n)),
+                "func %s 0 1 6 0" % x(b"f"), "insn %d 1 i:7" % T.code["RET"], "endfunc", "endmodule"]
+
+    r = run_driver([("write", lines(base))])[0]
+    if "bytes" not in r:
+        return []
+    len0 = len(r["bytes"]) // 2
+    out = []
+    for k in (1, 2):
+        for d in (-1, 0, 1):
+            n = base + k * (1 << 18) + d - len0
+            out.append(Case("bufmult-%d%+d" % (k, d), lines(n), flags=["exec"], calls=["call %s 0" % x(b"f")],
+                            kind="incompr", meta={"raw_len": k * (1 << 18) + d}))
     return out
 
 
@@ -1075,6 +1119,7 @@ try:
         stats["corpus_replayed"] = len(cases)
         cases += defect_probes() + unit_probes() + incompressible_cases(ck.rng)
         cases += history_cases(ck.rng, 120 if THOROUGH else 32)
+        cases += buffer_multiple_cases()
         cases += gen_cases(900 if THOROUGH else 320, ck.rng)
         cases += text_corpus(ck.rng)
         if THOROUGH:
